@@ -210,6 +210,36 @@ def validate(ctx, events, shards=14):
     return rejects, dict(hash_obligations=sum(p[1] for p in parts), unmodelled_traces=sum(p[2] for p in parts))
 
 
+def stratified_sample(em, n, rng):
+    """A sample of n model-emitted programs that does not depend on the order TLC's workers emitted them in and
+    that covers every *opcode signature* (the opcodes of unlock + lock other than data pushes, in order, plus the era): programs
+    are sorted, grouped by signature, and taken round-robin from the groups (random within a group)."""
+    if len(em) <= n:
+        return sorted(em, key=lambda o: (o["unlock"], o["lock"], json.dumps(o, sort_keys=True)))
+    groups = {}
+    for o in sorted(em, key=lambda o: (o["unlock"], o["lock"], json.dumps(o, sort_keys=True))):
+        sig = (tuple(x for x in tokens_ops(bytes(o["unlock"])) + [-1] + tokens_ops(bytes(o["lock"])) if x > 0x4e or x == -1), o.get("genesis"))
+        groups.setdefault(sig, []).append(o)
+    keys = sorted(groups, key=lambda k: (k[0], str(k[1])))
+    for k in keys:
+        rng.shuffle(groups[k])
+        # within a signature, programs the specification runs to completion are taken first (they exercise every
+        # opcode of the signature; an early error exercises only a prefix)
+        groups[k].sort(key=lambda o: 0 if o.get("st") == "err" else 1)
+    out = []
+    while len(out) < n:
+        progressed = False
+        for k in keys:
+            if groups[k]:
+                out.append(groups[k].pop())
+                progressed = True
+                if len(out) >= n:
+                    break
+        if not progressed:
+            break
+    return out
+
+
 def trace_of(events, i):
     """(begin index, begin event, end event) of the trace containing event i"""
     b = i
